@@ -13,7 +13,7 @@ The frame record and the instruction syntax are shared with the specification (`
 
 The model follows the repaired code of fixes/C07-1.patch (`FuncFrame::init`: minimum dynamic alignment
 = 2 x natural alignment) and fixes/C07-2.patch (AArch64 vector saves use the register view whose size
-is the declared save size) and fixes/C07-3.patch, fixes/C07-4.patch.
+is the declared save size) and fixes/C07-3.patch … fixes/C07-6.patch.
 -/
 import AsmjitVerif.Spec.FrameSpec
 namespace AsmjitVerif.Frame
@@ -125,6 +125,55 @@ def Frame.setLocalSize (f : Frame) (v : Nat) : Frame := { f with localSize := u3
 def Frame.updateCallSize (f : Frame) (v : Nat) : Frame := { f with callSize := max f.callSize (u32 v) }
 def Frame.updateLocalSize (f : Frame) (v : Nat) : Frame := { f with localSize := max f.localSize (u32 v) }
 
+/-! ### everything the public API lets a caller do to a frame between `init` and `finalize` -/
+
+/-- `CallConv::set_preserved_regs(group, mask)` on a convention before `FuncDetail::init` (custom conventions) -/
+def CallConvInfo.withPreserved (ci : CallConvInfo) (p : Nat → Nat) : CallConvInfo :=
+  { ci with preserved := fun g => if g < 4 then u32 (p g) else 0 }
+
+inductive FrameOp where
+  | setLocalSize (v : Nat) | setLocalAlign (v : Nat) | setCallSize (v : Nat) | setCallAlign (v : Nat)
+  | updLocalSize (v : Nat) | updLocalAlign (v : Nat) | updCallSize (v : Nat) | updCallAlign (v : Nat)
+  | addAttrs (a : Nat) | clearAttrs (a : Nat)
+  | setDirty (g m : Nat) | addDirty (g m : Nat) | setAllDirty
+  | setSaReg (r : Nat) | resetSaReg
+  | resetRedZone
+  /-- `FuncArgsAssignment::update_func_frame` as far as it touches the frame: `mark_dst_regs_dirty` +
+  `mark_scratch_regs` add dirty registers per group, `mark_stack_args_reg` selects the SA register (the
+  register of the SA variable, else the frame pointer when it is preserved); `completed = false` is a call that
+  returned an error before `mark_stack_args_reg` -/
+  | updateFuncFrame (d0 d1 d2 d3 : Nat) (saVar : Option Nat) (completed : Bool)
+  deriving Repr, Inhabited
+
+def Frame.setDirtyG (f : Frame) (g m : Nat) : Frame := { f with dirty := fun i => if i = g then u32 m else f.dirty i }
+def Frame.addDirtyG (f : Frame) (g m : Nat) : Frame :=
+  { f with dirty := fun i => if i = g then f.dirty i ||| u32 m else f.dirty i }
+
+def Frame.apply (f : Frame) : FrameOp → Frame
+  | .setLocalSize v => f.setLocalSize v
+  | .setLocalAlign v => f.setLocalAlign v
+  | .setCallSize v => f.setCallSize v
+  | .setCallAlign v => f.setCallAlign v
+  | .updLocalSize v => f.updateLocalSize v
+  | .updLocalAlign v => f.updateLocalAlign v
+  | .updCallSize v => f.updateCallSize v
+  | .updCallAlign v => f.updateCallAlign v
+  | .addAttrs a => { f with attrs := f.attrs ||| u32 a }
+  | .clearAttrs a => { f with attrs := f.attrs &&& (2 ^ 32 - 1 - u32 a) }
+  | .setDirty g m => if g < 4 then f.setDirtyG g m else f
+  | .addDirty g m => if g < 4 then f.addDirtyG g m else f
+  | .setAllDirty => { f with dirty := fun i => if i < 4 then 0xFFFFFFFF else f.dirty i }
+  | .setSaReg r => { f with saRegId := u8 r }
+  | .resetSaReg => { f with saRegId := 0xFF }
+  | .resetRedZone => { f with redZone := 0 }
+  | .updateFuncFrame d0 d1 d2 d3 saVar completed =>
+    let f := (((f.addDirtyG 0 d0).addDirtyG 1 d1).addDirtyG 2 d2).addDirtyG 3 d3
+    match saVar with
+    | some r => { f with saRegId := u8 r }
+    | none => if completed && f.hasFP then { f with saRegId := u8 f.arch.fpId } else f
+
+def Frame.applyAll (f : Frame) (ops : List FrameOp) : Frame := ops.foldl Frame.apply f
+
 /-- `ArchTraits::has_inst_push_pop(group)` -/
 def hasPushPop (a : Arch) (g : Nat) : Bool :=
   match a with
@@ -152,9 +201,17 @@ def Frame.dirty0C (f : Frame) : Nat :=
             else f.dirty 0
   if f.saC ≠ f.arch.spId then d0 ||| bit f.saC else d0
 
-/-- first part of `finalize`: FP / LR / SA register made dirty, `_sp_reg_id`, `_sa_reg_id` -/
+/-- GP preserved mask after `finalize` (fixes/C07-5.patch): a preserved frame pointer (and the link register) is
+pushed by the prolog whatever the convention says, so it counts as saved -/
+def Frame.preserved0C (f : Frame) : Nat :=
+  if f.hasFP then u32 ((f.preserved 0 ||| bit f.arch.fpId) ||| (match f.arch.lrId with | some lr => bit lr | none => 0))
+  else f.preserved 0
+
+/-- first part of `finalize`: FP / LR / SA register made dirty (FP / LR also preserved), `_sp_reg_id`, `_sa_reg_id` -/
 def Frame.fin1 (f : Frame) : Frame :=
-  { f with dirty := fun g => if g = 0 then u32 f.dirty0C else f.dirty g, spRegId := u8 f.arch.spId, saRegId := u8 f.saC }
+  { f with dirty := fun g => if g = 0 then u32 f.dirty0C else f.dirty g,
+           preserved := fun g => if g = 0 then f.preserved0C else f.preserved g,
+           spRegId := u8 f.arch.spId, saRegId := u8 f.saC }
 
 def Frame.regSize (f : Frame) : Nat := f.srSize 0
 def Frame.retAddrSize (f : Frame) : Nat := if f.arch.lrId.isSome then 0 else f.srSize 0
@@ -187,12 +244,14 @@ def Frame.finalSizeC (f : Frame) : Nat := u32 (f.ppOffC + f.ppSizeC)
 def Frame.stackAdjC (f : Frame) : Nat := if f.hasDA then alignUp f.ppOffC f.finalAlign else f.ppOffC
 def Frame.saOffSpC (f : Frame) : Nat :=
   if f.hasDA then invalidOff else (if f.arch.lrId.isSome then f.finalSizeC else u32 (f.finalSizeC + f.regSize))
+/-- fixes/C07-7.patch: with a link register the frame pointer is set after the whole push/pop area is allocated -/
 def Frame.saOffSaC (f : Frame) : Nat :=
-  if f.hasFP then u32 (f.retAddrSize + f.regSize) else u32 (f.retAddrSize + f.ppSizeC)
+  if f.hasFP && f.arch.lrId.isNone then u32 (f.retAddrSize + f.regSize) else u32 (f.retAddrSize + f.ppSizeC)
 
 /-- second part of `finalize`: every layout field -/
 def Frame.layout (g : Frame) : Frame :=
-  { g with attrs := if g.alignedVecC then g.attrs ||| 0x40 else g.attrs,
+  -- fixes/C07-6.patch: kAlignedVecSR is an output, a stale / user-set bit is cleared
+  { g with attrs := if g.alignedVecC then g.attrs ||| 0x40 else g.attrs &&& (2 ^ 32 - 1 - 0x40),
            ppSize := g.ppSizeC, xSize := g.xSizeC, localOff := g.localOffC, xOff := g.xOffC, daOff := g.daOffC,
            ppOff := g.ppOffC, stackAdj := g.stackAdjC, finalSize := g.finalSizeC,
            saOffSp := g.saOffSpC, saOffSa := g.saOffSaC }
